@@ -94,7 +94,9 @@ B == BoundsOf(q.dim)
 OutsideIsNegInf ==
   Live /\ q.fam = "A" =>
     /\ (~Inside(q.p.c, B) => LogPdfMicro(q.p, H, B) = FxNInf /\ PdfMicro(q.p, H, B) = 0)
-    /\ (Inside(q.p.c, B) /\ q.p.lp # NINF => FxFinite(LogPdfMicro(q.p, H, B)) /\ PdfMicro(q.p, H, B) > 0)
+    \* (Phi(z) < 5e-7 rounds to 0 in units of 10^-6 for z <= -5: positivity is visible only above that)
+    /\ (Inside(q.p.c, B) /\ q.p.lp # NINF => FxFinite(LogPdfMicro(q.p, H, B)) /\ PdfMicro(q.p, H, B) >= 0
+                                             /\ (ZA(q.sur, q.x) >= -4 => PdfMicro(q.p, H, B) > 0))
     /\ (Inside(q.p.c, B) /\ q.p.lp # NINF => LogPdfMicro(q.p, H, B) = LogPhiMicro(ZA(q.sur, q.x)) + q.p.lp * Unit)
 BoundsInclusive ==
   Live /\ q.fam = "A" =>
